@@ -299,6 +299,12 @@ class SymArr:
     def __itruediv__(self, o):
         return self._inplace(self / o)
 
+    def fill(self, v):
+        if self.ndim == 0:
+            raise A.Undecided("fill of a 0-d array")
+        self[tuple(slice(None) for _ in self.shape)] = SymArr(self.shape, [v] * self.size)
+        return None
+
     def swapaxes(self, i, j):
         n = self.ndim
         if not all(isinstance(a, int) and not isinstance(a, bool) and -n <= a < n for a in (i, j)):
@@ -308,7 +314,22 @@ class SymArr:
         return self.transpose(*ax) if n >= 2 else self
 
     # ---------------------------------------------------------------- indexing
+    def _no_ellipsis(self, key):
+        """`...` stands for as many full slices as it takes to index every axis"""
+        kt = key if isinstance(key, tuple) else (key,)
+        n_e = sum(1 for k in kt if k is Ellipsis)
+        if not n_e:
+            return key
+        if n_e > 1:
+            raise IndexError("an index can only have a single ellipsis ('...')")
+        used = sum(1 for k in kt if k is not Ellipsis and k is not None)
+        if used > self.ndim:
+            raise IndexError("too many indices for array")
+        i = [j for j, k in enumerate(kt) if k is Ellipsis][0]
+        return tuple(kt[:i]) + (slice(None),) * (self.ndim - used) + tuple(kt[i + 1:])
+
     def __getitem__(self, key):
+        key = self._no_ellipsis(key)
         kt = key if isinstance(key, tuple) else (key,)
         if any(k is None for k in kt):
             # np.newaxis: index without the None entries, then insert axes of length one
@@ -329,27 +350,80 @@ class SymArr:
             return SymArr(tuple(shape), list(base.flat))
         return self._getitem(key)
 
-    def _norm_key(self, key):
+    def _resolve(self, key):
+        """numpy's indexing rule: -> (shape of the result, source index of every result element in C order).
+        Integers drop their axis, slices keep it; index arrays / lists are broadcast against each other (a[[0, 1], [0, 1]] picks
+        the pairs, np.ix_ gives the outer grid) and their common shape stands where the first of them stood when they are
+        adjacent, in front otherwise; a boolean vector selects along its axis"""
         if not isinstance(key, tuple):
             key = (key,)
         key = list(key) + [slice(None)] * (self.ndim - len(key))
         if len(key) != self.ndim:
-            raise A.Undecided("too many indices")
-        sel = []
+            raise IndexError("too many indices for array: array is %d-dimensional, but %d were indexed" % (self.ndim, len(key)))
+        kinds = []
         for k, n in zip(key, self.shape):
             if isinstance(k, slice):
-                sel.append((list(range(n))[k], True))
+                kinds.append(("slice", list(range(n))[k]))
             elif isinstance(k, SymArr) or isinstance(k, (list, tuple, range)):
-                vals = list(k.flat) if isinstance(k, SymArr) else list(k)
-                if vals and all(isinstance(v, bool) for v in vals):
-                    if len(vals) != n:
-                        raise IndexError("boolean index did not match the axis")
-                    sel.append(([i for i, b in enumerate(vals) if b], True))
+                raw = None if isinstance(k, SymArr) else list(k)
+                if raw is not None and raw and all(isinstance(v, bool) for v in raw):
+                    arr, vals = SymArr((len(raw),), [0] * len(raw)), raw
                 else:
-                    sel.append(([_as_int(v, n) for v in vals], True))
+                    arr = k if isinstance(k, SymArr) else SymArr.of(raw) if len(raw) else SymArr((0,), [])
+                    vals = list(arr.flat)
+                if vals and all(isinstance(v, bool) for v in vals):
+                    if arr.ndim != 1:
+                        raise A.Undecided("boolean index with %d axes" % arr.ndim)
+                    if len(vals) != n:
+                        raise IndexError("boolean index did not match indexed array along axis; size of axis is %d but size of boolean index is %d" % (n, len(vals)))
+                    hits = [i for i, b_ in enumerate(vals) if b_]
+                    kinds.append(("fancy", (len(hits),), hits))
+                else:
+                    kinds.append(("fancy", tuple(arr.shape), [_as_int(v, n) for v in vals]))
             else:
-                sel.append(([_as_int(k, n)], False))
-        return sel
+                kinds.append(("int", _as_int(k, n)))
+        fancy = [i for i, kd in enumerate(kinds) if kd[0] == "fancy"]
+        if not fancy:
+            shape = tuple(len(kd[1]) for kd in kinds if kd[0] == "slice")
+            src = [tuple(t) for t in itertools.product(*[(kd[1] if kd[0] == "slice" else [kd[1]]) for kd in kinds])]
+            return shape, src
+        bshape = ()
+        for i in fancy:
+            bshape = _bshape(bshape, kinds[i][1]) if bshape != () or kinds[i][1] == () else kinds[i][1]
+        adv = [i for i, kd in enumerate(kinds) if kd[0] in ("fancy", "int")]
+        adjacent = adv == list(range(adv[0], adv[-1] + 1))
+        bidx = list(itertools.product(*[range(n_) for n_ in bshape]))
+
+        def fancy_at(i, bi):
+            shp, vals = kinds[i][1], kinds[i][2]
+            # broadcast position of bi in the index array of axis i
+            pad = len(bshape) - len(shp)
+            pos, mul = 0, 1
+            for ax in reversed(range(len(shp))):
+                j = bi[ax + pad] if shp[ax] != 1 else 0
+                pos += j * mul
+                mul *= shp[ax]
+            return vals[pos]
+        slices = [i for i, kd in enumerate(kinds) if kd[0] == "slice"]
+        if adjacent:
+            before = [i for i in slices if i < adv[0]]
+            after = [i for i in slices if i > adv[-1]]
+        else:
+            before, after = [], slices
+        shape = tuple(len(kinds[i][1]) for i in before) + tuple(bshape) + tuple(len(kinds[i][1]) for i in after)
+        src = []
+        for pre in itertools.product(*[kinds[i][1] for i in before]):
+            for bi in bidx:
+                for post in itertools.product(*[kinds[i][1] for i in after]):
+                    idx = [None] * self.ndim
+                    for i, v in zip(before, pre):
+                        idx[i] = v
+                    for i, v in zip(after, post):
+                        idx[i] = v
+                    for i in adv:
+                        idx[i] = kinds[i][1] if kinds[i][0] == "int" else fancy_at(i, bi)
+                    src.append(tuple(idx))
+        return shape, src
 
     def _getitem(self, key):
         kt = key if isinstance(key, tuple) else (key,)
@@ -368,21 +442,23 @@ class SymArr:
                 else:
                     off += _as_int(k, n_) * st_
             return SymArr._view(shape, store, off, nstr, self.boolean)
-        sel = self._norm_key(key)
-        shape = tuple(len(ix) for ix, keep in sel if keep)
-        flat = [self.at(idx) for idx in itertools.product(*[ix for ix, _ in sel])]
+        shape, src = self._resolve(key)
+        flat = [self.at(idx) for idx in src]
         if not shape:
             return flat[0]
-        return SymArr(shape, flat)
+        out = SymArr(shape, flat)
+        if getattr(self, "int_typed", False):
+            out.int_typed = True
+        return out
 
     def __setitem__(self, key, value):
-        sel = self._norm_key(key)
-        shape = tuple(len(ix) for ix, keep in sel if keep)
+        key = self._no_ellipsis(key)
+        shape, src = self._resolve(key)
         st = self._strides()
-        v = value if isinstance(value, SymArr) else None
+        v = value if isinstance(value, SymArr) else (SymArr.of(value) if isinstance(value, (list, tuple)) else None)
         if v is not None and v.shape != shape:
             v = _broadcast_to(v, shape)
-        for n, idx in enumerate(itertools.product(*[ix for ix, _ in sel])):
+        for n, idx in enumerate(src):
             if self.boolean:
                 self.flat[sum(i * s for i, s in zip(idx, st))] = bool(v.flat[n] if v is not None else value)
             else:
@@ -490,7 +566,12 @@ def _bshape(a, b):
 def _broadcast_to(a, shape):
     if a.shape == shape:
         return a
-    pad = (1,) * (len(shape) - a.ndim) + a.shape
+    shape = tuple(shape)
+    if len(shape) < a.ndim:
+        raise ValueError("input operand has more dimensions than allowed by the axis remapping")
+    pad = (1,) * (len(shape) - a.ndim) + tuple(a.shape)
+    if any(p != 1 and p != s_ for p, s_ in zip(pad, shape)):
+        raise ValueError("operands could not be broadcast together with remapped shapes [original->remapped]: %s and requested shape %s" % (tuple(a.shape), shape))
     flat = []
     for idx in itertools.product(*[range(s) for s in shape]):
         src = [0 if p == 1 else i for i, p in zip(idx, pad)]
@@ -616,6 +697,56 @@ def _ones_like(a, dtype=None):
     if dtype is None and getattr(a, "int_typed", False):
         out.int_typed = True
     return out
+
+
+def _sym_full(shape, fill_value, dtype=None, order="C"):
+    sh = (shape,) if isinstance(shape, int) else tuple(shape)
+    out = SymArr(sh, [fill_value] * _prod(sh))
+    if dtype is None and isinstance(fill_value, int) and not isinstance(fill_value, bool):
+        out.int_typed = True            # numpy: np.full(shape, 1) is an integer array
+    return out
+
+
+def _sym_ix(*seqs):
+    """np.ix_: index vectors shaped so that they broadcast to the outer grid"""
+    out = []
+    for i, q in enumerate(seqs):
+        vals = list(q.flat) if isinstance(q, SymArr) else list(q)
+        if isinstance(q, SymArr) and q.ndim != 1:
+            raise ValueError("Cross index must be 1 dimensional")
+        shape = tuple(len(vals) if j == i else 1 for j in range(len(seqs)))
+        out.append(SymArr(shape, vals))
+    return tuple(out)
+
+
+def _sym_empty(shape, dtype=None, order="C"):
+    """np.empty: whatever is not written afterwards is garbage - a symbol of its own, so that it shows if it reaches a result"""
+    sh = (shape,) if isinstance(shape, int) else tuple(shape)
+    return SymArr(sh, [A.sym("<uninitialised memory>")] * _prod(sh))
+
+
+def _sym_take(a, indices, axis=None, out=None, mode="raise"):
+    if out is not None or mode != "raise":
+        raise A.Undecided("np.take with out= / mode=")
+    a = a if isinstance(a, SymArr) else SymArr.of(a)
+    idx = [int(_as_int(x, 10 ** 9)) if not isinstance(x, int) else x for x in (indices.flat if isinstance(indices, SymArr) else indices)] \
+        if isinstance(indices, (SymArr, list, tuple, range)) else indices
+    if axis is None:
+        return a.ravel()[idx] if a.ndim > 1 else a[idx]
+    if not isinstance(axis, int) or isinstance(axis, bool) or not -a.ndim <= axis < a.ndim:
+        raise ValueError("axis %r is out of bounds for array of dimension %d" % (axis, a.ndim))
+    axis %= a.ndim
+    key = tuple([slice(None)] * axis + [idx])
+    return a[key if len(key) > 1 else key[0]]
+
+
+def _sym_ndindex(*shape):
+    import itertools
+    if len(shape) == 1 and isinstance(shape[0], (tuple, list)):
+        shape = tuple(shape[0])
+    if not all(isinstance(n, int) and not isinstance(n, bool) and n >= 0 for n in shape):
+        raise A.Undecided("np.ndindex%r" % (shape,))
+    return [tuple(t) for t in itertools.product(*[range(n) for n in shape])]
 
 
 def np_summaries():
@@ -781,10 +912,12 @@ def np_summaries():
                                  for x in (a.flat if isinstance(a, SymArr) else list(a))],
         "np.multiply": lambda a, b: SymArr.of(a) * b, "np.size": lambda a, *x: SymArr.of(a).size, "np.shape": lambda a: SymArr.of(a).shape,
         "np.squeeze": lambda a: SymArr(tuple(x for x in SymArr.of(a).shape if x != 1), SymArr.of(a).flat),
+        "np.take": _sym_take, "np.ndindex": _sym_ndindex,
         "np.arange": lambda *a, **k: SymArr.of(list(range(*[_as_int(x, 10 ** 9) if not isinstance(x, int) else x for x in a]))),
         "np.add.outer": lambda a, b: SymArr((SymArr.of(a).size, SymArr.of(b).size), [x + y for x in SymArr.of(a).flatten().flat for y in SymArr.of(b).flatten().flat]),
         "np.multiply.outer": lambda a, b: outer(a, b), "np.atleast_1d": lambda a: SymArr.of(a) if SymArr.of(a).ndim else SymArr.of(a).reshape(1),
-        "np.reshape": reshape, "np.array": array, "np.asarray": array, "np.zeros": zeros, "np.ones": lambda s, *a, **k: SymArr.ones(s),
+        "np.reshape": reshape, "np.array": array, "np.asarray": array, "np.zeros": zeros, "np.ones": lambda s, *a, **k: SymArr.ones(s), "np.ix_": _sym_ix, "np.broadcast_to": lambda a, shape, subok=False: _broadcast_to(SymArr.of(a), (shape,) if isinstance(shape, int) else tuple(shape)), "np.full": _sym_full, "np.empty": _sym_empty,
+        "np.identity": lambda n, *a, **k: SymArr.eye(n),
         "np.eye": lambda n, *a, **k: SymArr.eye(n), "np.identity": lambda n: SymArr.eye(n),
         "np.dot": dot, "np.tensordot": tensordot, "np.einsum": einsum, "np.kron": kron, "np.append": append, "np.bmat": bmat, "np.block": block, "np.transpose": lambda a: SymArr.of(a).T, "np.swapaxes": lambda a, i, j: SymArr.of(a).swapaxes(i, j),
         "np.ravel": lambda a, order="C": SymArr.of(a).ravel(order), "np.sort": sort, "np.copy": lambda a: SymArr.of(a).copy(),
